@@ -234,7 +234,7 @@ static void inc_lexically_normal (const char* abs_base, const char *name, char *
   /* process .. and . in the include header name */
   while (*from)
     {
-      if (!strncmp (from, "../", 3))
+      if (!strncmp (from, "../", 3) || !strcmp (from, ".."))	/* also a final ".." component */
         {
           if (*dest == 0)	/* including from above mudlib is NOT allowed */
             break;
@@ -243,7 +243,7 @@ static void inc_lexically_normal (const char* abs_base, const char *name, char *
             *dest = 0;
           else
             *slash = 0;
-          from += 3;		/* skip "../" */
+          from += from[2] ? 3 : 2;	/* skip "../" or the final ".." */
         }
       else if (!strncmp (from, "./", 2))
         {
